@@ -480,6 +480,14 @@ class Canon:
                     base = base.args[0]
                     continue
                 break
+            if base.op == "dict" and _lit(key) and all(_lit(k) for k, _v in base.args[0]):
+                # {"fp": a, "fn": b}["fp"] is a
+                hits = [v for k, v in base.args[0] if k is key]
+                if hits:
+                    return hits[-1]
+            if base.op == "ite" and any(x.op == "dict" for x in base.args[1:]) and _lit(key):
+                # (default_table if x is None else x)[k]: the subscript of either branch
+                return self.canon(mk("ite", base.args[0], mk("sub", base.args[1], key), mk("sub", base.args[2], key)))
             if base.op == "elem" and key.op == "const" and const_value(key) in (0, 1) and not isinstance(const_value(key), bool):
                 it_ = base.args[0]
                 # for k, v in D.items():  k is an element of D.keys(), v is D[k]
@@ -647,6 +655,12 @@ class Canon:
             # list(map(f, xs)) is [f(x) for x in xs]
             fn_, xs_ = args[0].args[1]
             return self.canon(mk("comp", "list", mk("call", fn_, (mk("elem", xs_),), ()), ((xs_, ()),)))
+        if f.op == "global" and f.args[0] == "torch.linalg.vector_norm" and args:
+            # vector_norm flattens its input; with ord 2 (its default) it is torch.norm(x), the root of the sum of squares
+            o = args[1] if len(args) > 1 else dict(kwargs).get("ord")
+            rest = [k for k, _ in kwargs if k != "ord"]
+            if len(args) <= 2 and not rest and (o is None or (o.op == "const" and const_value(o) == 2 and not isinstance(const_value(o), bool))):
+                return self.canon(mk("call", glob("torch.norm"), (args[0],), ()))
         cargs = [self.canon(x) for x in args]
         if f.op == "global" and f.args[0] in SEQ_ARG_FUNCS and cargs and cargs[0].op == "list":
             cargs[0] = mk("tuple", cargs[0].args[0])
